@@ -68,6 +68,7 @@ def profile(name):
         p['p_refuse'] = 0.2
         p['p_raise_finish'] = 0.08
         p['p_raise_stop'] = 0.25
+        p['ops_w']['scratch_env'] = 2.0
         p['p_same_instant'] = 0.5
     elif name == 'routing':       # C08
         p['stage_w'].update({'gates': 3.5, 'group': 3.5, 'nested_group': 1.2, 'flow': 1.2, 'batcher': 0.7,
@@ -83,6 +84,7 @@ def profile(name):
         p['stage_w'].update({'processor': 9, 'group': 1.5, 'handler': 1, 'buffer': 2, 'res_fanout': 2.5, 'res_series': 2.0})
         p['p_big_pool'] = 0.15
         p['p_setup'] = 0.2
+        p['ops_w']['scratch_env'] = 2.0
         p['p_resources'] = 1.0
         p['n_resources'] = (1, 3)
         p['res_cap'] = (1, 3)
@@ -171,6 +173,8 @@ class Gen:
     def add(self, item):
         if 'ct' in item and self.rng.random() < self.p.get('p_np', 0.08):
             item['np'] = True          # the cycle time is handed to the library as a numpy scalar
+        if item.get('kind') == 'handler' and self.rng.random() < self.p.get('p_len_dev', 0.1):
+            item['len_dev'] = True     # a station subclass that defines __len__ (falsy until its first part)
         self.order[item['id']] = len(self.items)
         self.items.append(item)
         return item['id']
@@ -663,6 +667,8 @@ class Gen:
                 e['ct'] = rng.choice([0, 0, 0.5, 1, 2, 0.25])
             elif op == 'scratch_env':
                 e['with_minus_one'] = rng.random() < 0.3
+                if self.resources and rng.random() < 0.7:
+                    e['pools'] = sorted(self.resources)
             elif op == 'reprice_waiting':
                 e['delta'] = rng.choice([0.5, 1, -0.25, 2.5, -1])
             elif op == 'late_path':
@@ -984,6 +990,10 @@ def generate_fanout(seed, tie='prng', decimal=False):
             else:
                 items.append({'id': gid, 'kind': 'flow', 'up': [sender]})
             leaf_up = gid
+            if rng.random() < 0.35:
+                gid2 = f'F{j + 3}b'
+                items.append({'id': gid2, 'kind': 'flow', 'up': [gid]})     # two pass-through devices in a row
+                leaf_up = gid2
         if kind == 'processor':
             items.append({'id': pid, 'kind': 'processor', 'up': [leaf_up], 'ct': ct, 'res': None,
                           'wo': {'x': [1, 0, 0], 'y': [0.5, 0, 0]}})
@@ -993,6 +1003,8 @@ def generate_fanout(seed, tie='prng', decimal=False):
             items.append({'id': pid, 'kind': 'sink', 'up': [leaf_up], 'ct': ct, 'collect': True})
         else:
             items.append({'id': pid, 'kind': 'handler', 'up': [leaf_up], 'ct': ct})
+            if rng.random() < 0.25:
+                items[-1]['len_dev'] = True
         par.append((pid, kind))
     ups = [p for p, kd in par if kd != 'sink']
     if ups:
